@@ -216,7 +216,25 @@ def streams(rng, tier):
                 nontrivial=lambda op, impl: split_enc(impl) is not None, rule=RULE)
     s1.shrinkable = False
     enc = run_lines(harness_bin("hcore"), ops)
-    return [s1, dec_streams_from(cps, enc)] + token_streams(rng, tier)
+    # the same encodings with failed to_vec / to_vec_with calls in between, on the thread the operations run on: what a failed call leaves
+    # behind (a scratch buffer, a counter) must not show in the bytes of the next value
+    fops, fmops, k = [], [], 0
+    for i, (o, m) in enumerate(zip(ops, mops)):
+        if len(o) > 500:
+            continue                  # long operations run on a thread of their own
+        if i % 3 == 0:
+            fops.append(f"givesup {[0, 1, 22, 300, 70000][k % 5]}"); fmops.append("nop"); k += 1
+        fops.append(o); fmops.append(m)
+    def judge_after(op, impl, model, spec):
+        if op.startswith("givesup"):
+            return "ok" if impl == "err" else "violation"
+        return judge_enc(op, impl, model, spec)
+    s0 = Stream("encodings-after-failed-calls", "hcore", fops, model_ops=fmops, judge=judge_after,
+                nontrivial=lambda op, impl: split_enc(impl) is not None,
+                rule="tenc <type> <value> with `givesup <k>` (a to_vec and a to_vec_with that fail after k+2 bytes) before every third one, all on one thread: "
+                     "the bytes and the length are the model's, whatever failed before")
+    s0.shrinkable = False
+    return [s1, dec_streams_from(cps, enc), s0] + token_streams(rng, tier)
 
 
 # ----------------------------------------------------------------------------- helper for C02 / C04
@@ -311,10 +329,17 @@ def typed_mutation_streams(rng, tier, per_type=None, max_len=400):
     return [s1, s2]
 
 
-JUDGES = {"token-enc": judge_enc, "token-roundtrip": judge_token_roundtrip, "roundtrip-tenc": judge_enc, "roundtrip-tdec": judge_roundtrip, "typed-prefix": judge_prefix, "typed-mutated": judge_mutated}
+JUDGES = {"encodings-after-failed-calls": judge_enc, "token-enc": judge_enc, "token-roundtrip": judge_token_roundtrip, "roundtrip-tenc": judge_enc, "roundtrip-tdec": judge_roundtrip, "typed-prefix": judge_prefix, "typed-mutated": judge_mutated}
 
 
 def replay_streams(rp):
+    if rp.get("stream", "").startswith("encodings-after-failed-calls"):
+        # the recorded operation shows the defect only after failed calls on its thread: they are replayed in front of it
+        pre = [f"givesup {k}" for k in (0, 1, 22, 300, 70000)]
+        st = Stream("replay", rp.get("binary", "hcore"), pre + [rp["op"]], model_ops=["nop"] * len(pre) + [rp.get("model_op") or rp["op"]],
+                    judge=lambda op, impl, model, spec: ("ok" if impl == "err" else "violation") if op.startswith("givesup") else judge_enc(op, impl, model, spec))
+        st.shrinkable = False
+        return [st]
     j = JUDGES.get(rp.get("stream"), judge_enc if rp["op"].startswith("tenc") else judge_roundtrip)
     st = Stream("replay", rp.get("binary", "hcore"), [rp["op"]], model_ops=[rp.get("model_op") or rp["op"]], judge=j,
                 canon=canon_sorted if rp.get("stream") == "typed-mutated" else None)
